@@ -203,4 +203,26 @@ func init() {
 		Assume:   []string{"everything outside the grid except the logo is initialised to one uniform value: the real scroll moves whole rows including padding and leftover columns, moving equal bytes is invisible; whether it should touch them is C19's question, which is not claimed", "only the in-range calls a terminal makes are exercised on the real consoles"},
 		Required: []string{"tty.console_kind_0", "tty.console_kind_1", "tty.console_kind_2", "tty.fb_8bpp", "tty.fb_15bpp", "tty.fb_16bpp", "tty.fb_24bpp", "tty.fb_32bpp", "tty.fb_with_logo", "tty.activation_after_writes_while_inactive", "tty.buffer_scrolled", "tty.viewport_advanced_through_scrollback"},
 	})
+
+	// ------------------------------------------------------------------ HAL (C16)
+	addEngine(&engineSpec{
+		Name: "hal", PkgDir: "hal",
+		Files: []overlayFile{
+			simkitFor("hal", "hal"),
+			{Src: "engines/hal/harness.go.txt", Dst: "hal/zz_verif_hal_test.go", Pkg: "hal"},
+			{Src: "engines/shims/device_shim.go.txt", Dst: "device/zz_verif_shim.go", Pkg: "device"},
+			{Src: "engines/shims/kfmt_shim.go.txt", Dst: "kfmt/zz_verif_shim.go", Pkg: "kfmt"},
+			{Src: "engines/shims/tty_shim.go.txt", Dst: "device/tty/zz_verif_shim.go", Pkg: "tty"},
+		},
+		Anchors: []string{"kernel/hal/hal.go", "kernel/device/driver.go", "kernel/kfmt/ringbuf.go", "kernel/kfmt/fmt.go", "kernel/kfmt/prefix_writer.go", "kernel/device/tty/vt.go"},
+		Real:    []string{"hal.DetectHardware / probe / onDriverInit / onConsoleInit / linkTTYToConsole", "device.DriverInfoList sorting", "kfmt.Printf / Fprintf, the early ring buffer, SetOutputSink, PrefixWriter", "tty.VT behind a recording wrapper"},
+		Stub:    []string{"mock drivers (plain, console, terminal) whose probe/initialisation outcome is a fault decision and which log unique tokens", "cell-grid console"},
+	})
+	addProp(&propSpec{
+		ID: "C16", Engine: "hal", Level: "exploration",
+		Subs: []subCheck{{Name: "C16", QuickRuns: 30000, QuickMs: 40000, ThoroughRuns: 3000000, ThoroughMs: 500000}},
+		Rule: "one evaluation = one simulated bring-up: 1-10 mock drivers with seeded detection orders (duplicates included) registered in a seeded permutation, a seeded subset absent (probe_absent) or failing to initialise (init_fail, unique error message), 0-3 consoles and 0-3 terminals at seeded positions so that either kind can come first; 0-5000 bytes of kernel log in seeded chunks before detection (ring_overflow when above capacity), tokens logged by drivers during initialisation, more log afterwards. Checked: probe calls in non-decreasing detection order, each driver probed/initialised once, failing drivers reported and never active, first console and first terminal win, terminal attached once to that console, active, kfmt's sink, console == terminal viewport; the terminal's received byte stream must start with exactly the unread ring content at the moment of attachment, every later token exactly once and in order, early tokens present form a suffix of the emission order and are missing only when the ring was full. Non-trivial = at least 3 drivers and a console/terminal pair came up; distinct = hash of (driver population, permutation, pre-boot log size).",
+		Assume:   []string{"ties in detection order may be probed in any order (the statement says non-decreasing)", "wording of the HAL's own messages is not compared; delivery is checked on tokens"},
+		Required: []string{"c16.terminal_first", "c16.console_first", "c16.ring_dropped_oldest", "c16.whole_early_log_delivered", "c16.init_failure_reported", "c16.no_terminal_pair"},
+	})
 }
